@@ -203,11 +203,44 @@ func (c *Conn) loadSession(dest string, hello *clientHelloMsg) (cacheKey string,
 	if !ok || session == nil {
 		return cacheKey, nil
 	}
+	// 会话中记录的服务端证书须通过当前配置的验证，否则不重用该会话（执行完整握手）
+	if err := c.verifySessionCertificates(session.peerCertificates); err != nil {
+		return cacheKey, nil
+	}
 	// 设置客户端Hello 会话ID
 	hello.sessionId = session.sessionId
 	cacheKey = hex.EncodeToString(session.sessionId)
 
 	return cacheKey, session
+}
+
+// verifySessionCertificates 按当前配置重新验证会话中记录的服务端证书（签名证书、加密证书），
+// 验证方式与 verifyServerCertificate 一致。会话可能由关闭了证书验证、
+// 或使用不同根证书、主机名、时间的配置创建并通过共享的会话缓存取得。
+func (c *Conn) verifySessionCertificates(certs []*x509.Certificate) error {
+	if !c.config.InsecureSkipVerify {
+		if len(certs) < 2 {
+			return errors.New("tlcp: session has no server certificates to verify")
+		}
+		opts := x509.VerifyOptions{
+			Roots:         c.config.RootCAs,
+			CurrentTime:   c.config.time(),
+			DNSName:       c.config.ServerName,
+			Intermediates: x509.NewCertPool(),
+		}
+		for _, cert := range certs[2:] {
+			opts.Intermediates.AddCert(cert)
+		}
+		_, err := certs[0].Verify(opts)
+		if err != nil {
+			return err
+		}
+		_, err = certs[1].Verify(opts)
+		if err != nil {
+			return err
+		}
+	}
+	return nil
 }
 
 // 根据服务端消息选择客户端协议版本
